@@ -138,6 +138,7 @@ func (w *cliWorld) call(cl *kmipclient.Client, c Call) bool {
 
 func clientScenario(cfg CliCfg) func() {
 	return func() {
+		resetPackages()
 		w := &cliWorld{cfg: cfg, seen: map[string]int{}}
 		opts := []kmipclient.Option{kmipclient.WithDialerUnsafe(w.dialer)}
 		if !cfg.Negotiate {
